@@ -634,6 +634,19 @@ func c04Instantiate(db *formsDB, seed uint64, row *formRow, choice, sfxIdx int) 
 	if err != nil || inst == nil {
 		return nil, "rejected by build"
 	}
+	// what avo goes on to emit must pass the post-allocation checks of the pipeline (physical registers only;
+	// no high-byte register in an instruction that needs a REX prefix)
+	{
+		fn := ir.NewFunction("f")
+		fn.AddInstruction(inst)
+		verr, vp := safely(func() error { return pass.VerifyAllocation(fn) })
+		if vp {
+			return nil, "panic in VerifyAllocation"
+		}
+		if verr != nil {
+			return nil, "rejected by pass.VerifyAllocation: " + verr.Error()
+		}
+	}
 	in.m = c04MatchedForm(db, row.Opcode, in.sfx, in.ops)
 	if in.m == nil {
 		return nil, "no matched form"
